@@ -18,7 +18,7 @@ RULE = ("(A) pairs of plain trees with overlapping and disjoint keys at depth <=
         "equal load_tree(model-merged tree) into a fresh configuration, and unresolved includes must fail; "
         "non-trivial = merge pair with an overlapping key, or a file case with >= 1 include processed; distinct = "
         "distinct case content")
-REQUIRED = ("include_field_declared_after_first_use", "file_cases_same_file_included_twice_in_scope", "file_cases_env_bound_include_fields", "file_cases_tilde_below_startdir", "file_cases_with_format_options", "reloads_after_include_files_rewritten", "startdir_form:rel", "startdir_form:home", "nested_schema_declared_before_includes", "merge_pairs_compared", "merge_purity_checks", "file_cases_compared", "file_cases_nested_include",
+REQUIRED = ("file_cases_denormalised_absolute_names", "file_cases_include_fields_with_friendly_names", "include_field_declared_after_first_use", "file_cases_same_file_included_twice_in_scope", "file_cases_env_bound_include_fields", "file_cases_tilde_below_startdir", "file_cases_with_format_options", "reloads_after_include_files_rewritten", "startdir_form:rel", "startdir_form:home", "nested_schema_declared_before_includes", "merge_pairs_compared", "merge_purity_checks", "file_cases_compared", "file_cases_nested_include",
             "file_cases_chain", "file_cases_unresolvable_rejected", "file_cases_relative_startdir")
 ASSUMPTIONS = ["documents and include files are produced with the library's own codecs (decided by C04)",
                "the merged tree keeps the include key; included files naming an already processed include field of the "
@@ -78,7 +78,7 @@ def generate(rng, ctx):
               "startdir_root": rng.choice([None, "inc"]), "startdir_sub": rng.choice([None, "inc", "other"]),
               "dynamic_sub": rng.random() < 0.3,
               # the schema has an environment prefix and the variables of some include fields name an existing decoy file
-              "env_inc": rng.random() < 0.2,
+              "env_inc": rng.random() < 0.2, "named_inc": rng.random() < 0.35,
               # the nested schema may be declared before the scope's own include fields; start directories may be given
               # absolute, relative to the working directory at load time, or relative to the home directory
               "sub_first": rng.random() < 0.5, "startdir_form": rng.choice(["abs", "abs", "rel", "home"])}
@@ -86,7 +86,7 @@ def generate(rng, ctx):
 
     def inc_target(name, startdir, treefn, sub=None):
         """value for an include key + the file it names"""
-        how = weighted(rng, [(6, "rel"), (3, "abs"), (1.2, "missing"), (0.8, "dir")])
+        how = weighted(rng, [(6, "rel"), (3, "abs"), (1.2, "missing"), (0.8, "dir"), (0.8, "denorm")])
         d = startdir or "."
         tree = treefn()
         if how == "missing":
@@ -94,6 +94,12 @@ def generate(rng, ctx):
         if how == "dir":
             return "$DIR/inc", how
         fname = "%s.cfg" % name
+        if how == "denorm":
+            # an absolute name that only a textual clean-up would resolve: through a directory that does not exist, or with
+            # a trailing slash behind a regular file (the file itself is there)
+            files[os.path.normpath(os.path.join(d, fname))] = tree
+            return rng.choice([os.path.join("$DIR", d, "no-such-dir", "..", fname), os.path.join("$DIR", d, fname) + "/",
+                               os.path.join("$DIR", d, fname, "..", fname)]), how
         if how == "rel" and startdir and rng.random() < 0.3:
             fname = "~/" + fname  # below a start directory "~" is an ordinary directory name
             layout["tilde_names"] = True
@@ -226,7 +232,8 @@ def _schema(cc, layout, d, early=False):
     root.lst = cc.ListField()
 
     def add_includes():
-        root.inc0 = cc.IncludeField(startdir=_startdir(layout, d, layout["startdir_root"]))
+        # (friendly names are for messages; documents name an include by the field's key)
+        root.inc0 = cc.IncludeField(startdir=_startdir(layout, d, layout["startdir_root"]), **({"name": "Extra settings file"} if layout.get("named_inc") else {}))
         # (a schema may be edited between two uses: inc1 starts as a plain file name and becomes an include field)
         root.inc1 = cc.FilenameField() if (early and layout.get("late_inc1")) else cc.IncludeField()
         root.inc2 = cc.IncludeField()
@@ -243,7 +250,7 @@ def _schema(cc, layout, d, early=False):
             root.sub.deep.inc = cc.IncludeField()
             root.sub.inc = cc.IncludeField(startdir=_startdir(layout, d, layout["startdir_sub"]))
         else:
-            root.sub.inc = cc.IncludeField(startdir=_startdir(layout, d, layout["startdir_sub"]))
+            root.sub.inc = cc.IncludeField(startdir=_startdir(layout, d, layout["startdir_sub"]), **({"name": "b"} if layout.get("named_inc") else {}))
             root.sub.deep.z = cc.IntField()
             root.sub.deep.data = cc.DictField()
             root.sub.deep.inc = cc.IncludeField()
@@ -274,6 +281,8 @@ def _model_merged(doc, files, layout, d, cwd):
         path = name
         if not isinstance(path, str):
             return None
+        if "no-such-dir" in path or path.endswith("/") or ".cfg/.." in path:
+            return None  # the operating system does not resolve these, whatever a textual normalisation makes of them
         if not os.path.isabs(path):
             path = os.path.normpath(os.path.join(os.path.join(d, startdir) if startdir else cwd, name))
         rel = os.path.relpath(path, d)
@@ -381,6 +390,10 @@ def run_files(case, ctx, res):
             pass
         schema.inc1 = cc.IncludeField()
         res.count("include_field_declared_after_first_use")
+    if "denorm" in case["inc_kinds"]:
+        res.count("file_cases_denormalised_absolute_names")
+    if layout.get("named_inc"):
+        res.count("file_cases_include_fields_with_friendly_names")
     if "again" in case["inc_kinds"]:
         res.count("file_cases_same_file_included_twice_in_scope")
     res.count("startdir_form:" + layout.get("startdir_form", "abs"))
